@@ -32,6 +32,8 @@ type Program struct {
 	tags      map[string]int
 	tagTypes  []types.Type
 	srcLines  map[string][]string
+	immCache  []immField
+	immErrors []string
 }
 
 // findContractFiles: every zz_verif_contracts.go under /repo, with its package import path
@@ -293,4 +295,11 @@ func (p *Program) sourceLine(pos token.Pos) string {
 		return strings.TrimSpace(ls[pp.Line-1])
 	}
 	return ""
+}
+
+func (p *Program) pkgByNameOrPath(s string) *types.Package {
+	if pk := p.pkgs[s]; pk != nil && pk.Types != nil {
+		return pk.Types
+	}
+	return p.pkgByName(s)
 }
